@@ -18,6 +18,11 @@ core.import_blackbird()
 import blackbird  # noqa: E402
 
 
+def _noaddr(s):
+    import re
+    return re.sub(r" at 0x[0-9a-fA-F]+", "", s)
+
+
 def outcome(req):
     if "file" in req:
         if req.get("cwd"):
@@ -38,7 +43,7 @@ def outcome(req):
             except Exception as e:  # noqa: BLE001
                 d = "dumps-raises " + type(e).__name__
         c = canon.canon_program(r[1])[1]
-        return ["prog", repr(c["ops"]), sorted(r[1].parameters), d, repr(c["vars"]), repr((c["target"], c["type"]))]
+        return ["prog", _noaddr(repr(c["ops"])), sorted(r[1].parameters), d, repr(c["vars"]), repr((c["target"], c["type"]))]
     return list(canon.classify_exception(r[1]))
 
 
